@@ -1414,4 +1414,62 @@ def section_ratio(repo: Repo) -> RuleRun:
 section_ratio.rule_id = "C03.SECTION-RATIO"
 
 
-RULES = [registry_agreement, closure, invert_complete, validation_siblings, dimensions, bracket_siblings, unit_ratio_tests, copy_well_posed, no_stale_lazy_cache, reject_not_repair, no_memo, solver_tolerance, no_rounding, ratio_rejection, count_rounds_up, count_integral, shortcut_exact, single_cell, calculate_pure, section_ratio, exact_power]
+
+def none_tests(repo: Repo) -> RuleRun:
+    """'parameter sets that cannot be realised on the edge are rejected': a parameter of exactly 0 is a parameter - it reaches the validators. Whether a chop parameter was given is decided with `is None` (or by counting None), never by its truth value."""
+    from ..optional import none_tests_rule
+
+    return none_tests_rule(repo, PROP, "C03.NONE-TESTS", ("grading.",), floor=1)
+
+
+none_tests.rule_id = "C03.NONE-TESTS"
+
+
+
+def reject_atomic(repo: Repo) -> RuleRun:
+    """'parameter sets that cannot be realised on the edge are rejected with an error rather than producing a wrong ... grading': a
+    rejected chop leaves the grading as it was. Abstract run of Grading.add_chop with a chop whose calculate() raises, and with a
+    length ratio out of range: the error reaches the caller and `specification` is still empty (a placeholder division appended
+    before the numbers are known stays behind as a division with 0 cells, `is_defined` turns true and later chops land behind it)."""
+    from ..peval import NO_MATCH, Evaluator, NotEvaluable, Obj, Raised, Sym
+
+    r = RuleRun(PROP, "C03.REJECT-ATOMIC", floor=2, what="Grading.add_chop leaves `specification` untouched when the chop is rejected (calculate() raises, or the length ratio is out of range)")
+    fn = repo.func("grading.grading.Grading.add_chop")
+    for label, ratio, calc_raises in (("calculate() raises", 1, True), ("length ratio 0", 0, False), ("length ratio 1.5", 1.5, False)):
+        g = Obj("grading", cls=repo.cls("grading.grading.Grading"))
+        g.set("length", 1.0)
+        g.set("specification", [])
+        chop = Obj("chop", length_ratio=ratio)
+
+        def hook(ev, call: ast.Call, name, calc_raises=calc_raises):
+            if isinstance(call.func, ast.Attribute) and call.func.attr == "calculate":
+                if calc_raises:
+                    raise Raised("ValueError")
+                return (Sym("count"), Sym("expansion"))
+            return NO_MATCH
+
+        ev = Evaluator(repo=repo, module=fn.module, call_hook=hook)
+        ev.float_arith = True
+        got = None
+        try:
+            ev.call_funcinfo(fn, [g, chop])
+        except Raised as err:
+            got = err.exc_name
+        except NotEvaluable as err:
+            raise AnalysisError(f"Grading.add_chop not evaluable ({label}): {err}") from err
+        left = g.get("specification")
+        r.check(
+            got is not None and left == [],
+            fn,
+            f"{label}: raises and leaves no division behind",
+            f"Grading.add_chop ({label}) " + ("does not raise" if got is None else f"raises {got} but leaves {len(left)} division(s) {left!r} in the specification: a caller that catches the error keeps a grading with a 0-cell division - is_defined is true, the count is wrong and later chops are written behind it"),
+            fn.node,
+            key=f"rejected:{label}",
+        )
+    return r
+
+
+reject_atomic.rule_id = "C03.REJECT-ATOMIC"
+
+
+RULES = [registry_agreement, closure, invert_complete, validation_siblings, dimensions, bracket_siblings, unit_ratio_tests, copy_well_posed, no_stale_lazy_cache, reject_not_repair, no_memo, solver_tolerance, no_rounding, ratio_rejection, count_rounds_up, count_integral, shortcut_exact, single_cell, calculate_pure, section_ratio, exact_power, none_tests, reject_atomic]
